@@ -17,6 +17,11 @@ func MessageGenerator[T proto.Message](x T, options GeneratorOptions) *rapid.Gen
 	return rapid.Custom(func(t *rapid.T) T {
 		msg := msgType.New()
 
+		if msg.Descriptor().Fields().Len() == 0 {
+			// rapid rejects a custom generator that consumes no data at all, which is what
+			// happens for a message type without fields
+			rapid.Bool().Draw(t, "empty")
+		}
 		options.setFields(t, nil, msg, 0)
 
 		return msg.Interface().(T)
